@@ -109,6 +109,14 @@ theorem JEq.isinstance_eq {a b : PyVal} (h : JEq a b) (t : PyType) : a.isinstanc
   | list _ => cases t <;> rfl
   | dict _ _ => cases t <;> rfl
 
+theorem JEq.isBool_eq {a b : PyVal} (h : JEq a b) : a.isBool = b.isBool := by
+  cases h <;> rfl
+
+theorem JEq.assertTypeOk_eq {a b : PyVal} (h : JEq a b) (strict : Bool) (ts : List PyType) :
+    a.assertTypeOk strict ts = b.assertTypeOk strict ts := by
+  have : ∀ t, a.isinstance t = b.isinstance t := h.isinstance_eq
+  simp only [PyVal.assertTypeOk, h.isBool_eq, this]
+
 theorem JEq.truthy_eq {a b : PyVal} (h : JEq a b) : a.truthy = b.truthy := by
   cases h with
   | refl => rfl
